@@ -33,6 +33,7 @@ CONFIGS = [
     {"minimum_simulation_budget": 1, "nfvs_size_threshold": 0},
     {"max_motifs_per_node": 2},
     {"nfvs_size_threshold": 1},
+    {"minimum_simulation_budget": 20_000},
 ]
 
 WEIGHTS = {
@@ -58,6 +59,13 @@ def cases(tier, seed):
             if rng.random() < 0.25 or n["cls"].startswith("corpus"):
                 h = [["bfs", None, None, None], ["xseeds"]] + h
             out.append({"net": n, "cls": n["cls"], "history": h, "config": rng.choice(CONFIGS), "rs": rng.randrange(1 << 30)})
+    # large percolated networks (no oracle needed for this property): motif-avoidant core + long chain
+    for i in range(12 if tier == "quick" else 60):
+        n = gen.maa_chain(rng, rng.randint(14, 20))
+        h = [rng.choice([["seeds", 0, False], ["xseeds"], ["cand", 0, True, True]])]
+        if rng.random() < 0.5:
+            h = [["bfs", None, None, None]] + h + [["xseeds"]]
+        out.append({"net": n, "cls": n["cls"], "history": h, "config": {}, "big": True, "rs": rng.randrange(1 << 30)})
     # name sanitising on clashing names
     for i in range(40 if tier == "quick" else 400):
         out.append({"sanitize": rng.randrange(1 << 30), "cls": "sanitize", "rs": i})
@@ -82,13 +90,20 @@ def run_case(case):
     if "sanitize" in case:
         return _sanitize_case(case, res, bb)
     net = case["net"]
-    ref = bb.ref_of(net)
+    if case.get("big"):
+        from .c04 import NameRef
+
+        ref = NameRef(net["names"])
+    else:
+        ref = bb.ref_of(net)
     ctx = rules_text(net)
+    msb = (case.get("config") or {}).get("minimum_simulation_budget", 1000)
     res.hash = hashlib.sha1((net_hash(net) + json.dumps(case["history"])).encode()).hexdigest()[:16]
     hist_done = []
 
     def run(fn, label, nodes):
-        B = bb.budget_for(ref.n, nodes)
+        # the simulation budget is a user-set amount of work: it enters the bound linearly
+        B = bb.budget_for(min(ref.n, 24), nodes) + 64 * msb * (ref.n + 1) ** 2
         try:
             r, used = bb.metered(fn, B, fingerprints=True)
         except bb.Aborted as e:
